@@ -5,6 +5,8 @@ package integration
 
 import (
 	"context"
+	"encoding/json"
+	"time"
 	"encoding/binary"
 	"errors"
 	"fmt"
@@ -34,6 +36,10 @@ type mcase struct {
 	udp   bool
 	model bool               // the Lean driver has an executable model of this matcher
 	cfgFn func(prefix []byte) string // configuration tokens that depend on the prefix (regexp result)
+	wrapTime     int    // clock: seconds of the (UTC) day + 1 at which the connection was wrapped (0 = now)
+	addr         string // ip matchers: address of the connection
+	addrRemote   bool
+	nameOverride string
 }
 
 type mgen func(r *vrng, ctx caddy.Context) mcase
@@ -269,8 +275,20 @@ func oneMatch(c mcase, prefix []byte) (verdict string, reads int, alloc uint64) 
 		sc.local = &net.UDPAddr{IP: net.IPv4(127, 0, 0, 1), Port: 53}
 		sc.remote = &net.UDPAddr{IP: net.IPv4(127, 0, 0, 1), Port: 40000}
 	}
+	if c.addr != "" {
+		a := &net.TCPAddr{IP: net.ParseIP(c.addr), Port: 1234}
+		if c.addrRemote {
+			sc.remote = a
+		} else {
+			sc.local = a
+		}
+	}
 	buf := append(make([]byte, 0, len(prefix)), prefix...)
 	cx := layer4.WrapConnection(sc, buf, zap.NewNop())
+	if c.wrapTime > 0 {
+		repl := cx.Context.Value(layer4.ReplacerCtxKey).(*caddy.Replacer)
+		repl.Set("l4.conn.wrap_time", time.Date(2024, 5, 17, 0, 0, 0, 0, time.UTC).Add(time.Duration(c.wrapTime-1)*time.Second))
+	}
 	var ms0, ms1 runtime.MemStats
 	func() {
 		defer func() {
@@ -311,8 +329,11 @@ func prefixLens(r *vrng, n int) []int {
 		}
 		return out
 	}
-	set := map[int]bool{0: true, n: true, n - 1: true, 1: true, 2: true, 3: true, 4: true, 5: true, 6: true, 7: true, 8: true}
-	for len(set) < 40 {
+	set := map[int]bool{0: true, n: true, n - 1: true}
+	for i := 1; i <= 24; i++ {
+		set[i] = true
+	}
+	for len(set) < 56 {
 		set[r.intn(n+1)] = true
 	}
 	var out []int
@@ -326,8 +347,103 @@ func prefixLens(r *vrng, n int) []int {
 
 const allocBound = 32 * layer4.MaxMatchingBytes
 
+// routedVerdict sends the message in the given chunks through a one-route list built from the matcher's own JSON
+// (the same Connection is re-evaluated after every prefetch) and reports whether the route's handler ran
+func routedVerdict(ctx caddy.Context, c mcase, chunks [][]byte) (string, error) {
+	mod, ok := c.m.(caddy.Module)
+	if !ok {
+		return "", fmt.Errorf("not a module")
+	}
+	id := string(mod.CaddyModule().ID)
+	name := id[strings.LastIndex(id, ".")+1:]
+	cfg, err := json.Marshal(c.m)
+	if err != nil {
+		return "", err
+	}
+	if string(cfg) == "null" {
+		// a matcher built in Go without sub-matchers marshals its nil raw field as null
+		cfg = []byte(map[string]string{"tls": "{}", "http": "[]"}[name])
+	}
+	ran := false
+	rid := fmt.Sprintf("routed-%p-%d", &ran, len(chunks))
+	hj, _ := json.Marshal(map[string]any{"handler": "vrec", "id": rid, "take": 0, "rsz": 1, "term": true})
+	route := &layer4.Route{MatcherSetsRaw: []caddy.ModuleMap{{name: cfg}}, HandlersRaw: []json.RawMessage{hj}}
+	routes := layer4.RouteList{route}
+	if err := routes.Provision(ctx); err != nil {
+		return "", err
+	}
+	vrecMu.Lock()
+	delete(vrecData, rid)
+	vrecMu.Unlock()
+	sc := &sconn{chunks: chunks}
+	if c.addr != "" {
+		a := &net.TCPAddr{IP: net.ParseIP(c.addr), Port: 1234}
+		if c.addrRemote {
+			sc.remote = a
+		} else {
+			sc.local = a
+		}
+	}
+	fell := false
+	h := routes.Compile(zap.NewNop(), time.Hour, layer4.HandlerFunc(func(*layer4.Connection) error { fell = true; return nil }))
+	cx := layer4.WrapConnection(sc, make([]byte, 0, 2048), zap.NewNop())
+	if c.wrapTime > 0 {
+		repl := cx.Context.Value(layer4.ReplacerCtxKey).(*caddy.Replacer)
+		repl.Set("l4.conn.wrap_time", time.Date(2024, 5, 17, 0, 0, 0, 0, time.UTC).Add(time.Duration(c.wrapTime-1)*time.Second))
+	}
+	var perr any
+	func() {
+		defer func() { perr = recover() }()
+		_ = h.Handle(cx)
+	}()
+	if perr != nil {
+		return "panic", nil
+	}
+	vrecMu.Lock()
+	_, ran = vrecData[rid]
+	delete(vrecData, rid)
+	vrecMu.Unlock()
+	switch {
+	case ran:
+		return "yes", nil
+	case fell:
+		return "no", nil
+	}
+	return "dropped", nil
+}
+
+// setVerdict evaluates two matchers in one matcher set on the same bytes
+func setVerdict(a, b mcase, p []byte) string {
+	sc := &sconn{}
+	cx := layer4.WrapConnection(sc, append([]byte(nil), p...), zap.NewNop())
+	v := ""
+	func() {
+		defer func() {
+			if recover() != nil {
+				v = "panic"
+			}
+		}()
+		ok, err := layer4.MatcherSet{a.m, b.m}.Match(cx)
+		switch {
+		case errors.Is(err, layer4.ErrConsumedAllPrefetchedBytes):
+			v = "more"
+		case err != nil:
+			v = "fail"
+		case ok:
+			v = "yes"
+		default:
+			v = "no"
+		}
+	}()
+	if sc.reads != 0 {
+		return "socket-read"
+	}
+	return v
+}
+
 // runMatchStream drives the generators; stream `name`; model=true cases are also sent to the Lean driver
 func runMatchStream(t *testing.T, name string, gens []mgen, seedMul uint64, def int) {
+	vreg()
 	out := vopen(t, name)
 	defer out.close()
 	ctx, cancel := caddy.NewContext(caddy.Context{Context: context.Background()})
@@ -340,7 +456,48 @@ func runMatchStream(t *testing.T, name string, gens []mgen, seedMul uint64, def 
 		c := gens[r.intn(len(gens))](r, ctx)
 		lens := prefixLens(r, len(c.msg))
 		whole, _, _ := oneMatch(c, c.msg)
+		if whole == "yes" && !c.udp && c.cfgFn == nil && len(c.msg) > 1 && len(c.msg) <= layer4.MaxMatchingBytes {
+			// the same message delivered in two or three fragments through the router must still match
+			for t := 0; t < 3; t++ {
+				k := 1 + r.intn(len(c.msg)-1)
+				chunks := [][]byte{c.msg[:k], c.msg[k:]}
+				if t == 2 && k > 1 {
+					j := 1 + r.intn(k-1)
+					chunks = [][]byte{c.msg[:j], c.msg[j:k], c.msg[k:]}
+				}
+				rv, err := routedVerdict(ctx, c, chunks)
+				stats["routed:"+rv]++
+				if err != nil {
+					stats["routed-error:"+c.name+":"+err.Error()]++
+				}
+				if err == nil && rv != "yes" {
+					tag := c.name
+					if c.name == "winbox" && c.msg[0] == 0xff {
+						tag = "winbox:second-chunk-incomplete"
+					}
+					out.fail(idx, "fragment-rejected:"+tag, fmt.Sprintf("%s matcher matches the whole %d-byte message but the router answers %q when it arrives split at %d", c.name, len(c.msg), rv, k))
+					break
+				}
+			}
+		}
+		if !c.udp && c.cfgFn == nil && r.intn(8) == 0 {
+			// two byte-reading matchers in one set must each see the same bytes: the set is their conjunction
+			d := gens[r.intn(len(gens))](r, ctx)
+			if !d.udp && d.cfgFn == nil && d.addr == "" && c.addr == "" && d.wrapTime == 0 && c.wrapTime == 0 {
+				v1, _, _ := oneMatch(c, c.msg)
+				v2, _, _ := oneMatch(d, c.msg)
+				want := v1
+				if v1 == "yes" {
+					want = v2
+				}
+				if got := setVerdict(c, d, c.msg); got != want && v1 != "panic" && v2 != "panic" {
+					out.fail(idx, "set-not-conjunction", fmt.Sprintf("matcher set {%s, %s} answers %s; alone they answer %s and %s on the same bytes", c.name, d.name, got, v1, v2))
+				}
+				stats["sets evaluated"]++
+			}
+		}
 		sawNo := -1
+		sawNoTag := false
 		for _, l := range lens {
 			p := c.msg[:l]
 			cfg := c.cfg
@@ -357,6 +514,11 @@ func runMatchStream(t *testing.T, name string, gens []mgen, seedMul uint64, def 
 			}
 			fmt.Fprintf(out.cases, "%s %s %s\n", line, tr, vhex(p))
 			out.cases.Flush()
+			// known-finding granularity: the WinBox two-chunk case is named separately
+			tag := c.name
+			if c.name == "winbox" && len(c.msg) > 0 && c.msg[0] == 0xff && l >= 257 {
+				tag = "winbox:second-chunk-incomplete"
+			}
 			v, reads, alloc := oneMatch(c, p)
 			v2, _, _ := oneMatch(c, p)
 			fmt.Fprintln(out.out, v)
@@ -371,12 +533,18 @@ func runMatchStream(t *testing.T, name string, gens []mgen, seedMul uint64, def 
 			case v2 != v:
 				out.fail(idx, "nondeterministic:"+c.name, fmt.Sprintf("%s matcher answered %s then %s on the same bytes", c.name, v, v2))
 			case !c.udp && sawNo >= 0 && v != "no":
-				out.fail(idx, "no-not-stable:"+c.name, fmt.Sprintf("%s matcher answered no on a %d-byte prefix and %s on the %d-byte prefix", c.name, sawNo, v, l))
-			case !c.udp && whole == "yes" && v == "no" && l < len(c.msg):
-				out.fail(idx, "fragment-rejected:"+c.name, fmt.Sprintf("%s matcher matches the whole %d-byte message but rejects its %d-byte prefix", c.name, len(c.msg), l))
+				if sawNoTag {
+					tag = "winbox:second-chunk-incomplete"
+				}
+				out.fail(idx, "no-not-stable:"+tag, fmt.Sprintf("%s matcher answered no on a %d-byte prefix and %s on the %d-byte prefix", c.name, sawNo, v, l))
+			case !c.udp && whole == "yes" && (v == "no" || (v == "fail" && l < layer4.MaxMatchingBytes)) && l < len(c.msg):
+				out.fail(idx, "fragment-rejected:"+tag, fmt.Sprintf("%s matcher matches the whole %d-byte message but rejects its %d-byte prefix", c.name, len(c.msg), l))
 			}
 			if v == "no" && sawNo < 0 {
 				sawNo = l
+				if tag != c.name {
+					sawNoTag = true
+				}
 			}
 			idx++
 		}
